@@ -70,6 +70,11 @@ func (e *enc) setHeap(st *State, sort, old, nw string, u heapUpd) {
 		}
 	}
 	if len(affected) == 0 {
+		if len(nw) > 400 {
+			n := e.fresh("Mem_"+sortKey(sort)+"_n", "(Array Ref "+sort+")")
+			e.assert(eq(n, nw))
+			nw = n
+		}
 		st.cells[cell] = nw
 		return
 	}
